@@ -133,6 +133,49 @@ Section Bnd.
       congruence.
     Qed.
 
+    (* a replica record (snapshot, log suffix) whose snapshot was persisted from a RaftLog state
+       at k and whose suffix is the committed entries k+1..k+m recovers, after a restart, to a
+       RaftLog state at k+m: crash/restart stays inside the hypothesis *)
+    Lemma skipn_cons_nth {A} k (l : list A) x rest :
+      skipn k l = x :: rest -> nth_error l k = Some x /\ skipn (S k) l = rest.
+    Proof.
+      revert l; induction k as [|k IH]; intros [|a l]; cbn; intros H; try discriminate.
+      - inversion H; auto.
+      - apply IH; auto.
+    Qed.
+
+    Lemma run_from_replica_at auto log orc suffix : forall k d,
+      replica_at auto log k d -> firstn (List.length suffix) (skipn k log) = suffix ->
+      replica_at auto log (k + List.length suffix) (run_from auto orc k d suffix).
+    Proof.
+      induction suffix as [|e t IH]; intros k d R H; cbn [run_from List.length].
+      - rewrite Nat.add_0_r. exact R.
+      - destruct (skipn k log) as [|x rest] eqn:E; cbn in H; [discriminate|]. injection H as Hx H2. subst x.
+        destruct (skipn_cons_nth _ _ _ _ E) as [Hn Hs].
+        replace (k + S (List.length t))%nat with (S k + List.length t)%nat by lia.
+        apply (IH (S k) (fst (apply auto (orc k) d (e_idx e) (e_term e) (e_cmd e)))).
+        + eapply ra_apply; eauto.
+        + rewrite Hs. exact H2.
+    Qed.
+
+    Theorem recover_in_raftlog auto log orc (r : replica image) k m :
+      match r_snap image r with
+      | None => k = 0%nat
+      | Some (k', img) => k' = k /\ exists dat d, replica_at auto log k d /\ stamps_ok dat /\ img = persist dat d
+      end ->
+      r_suffix image r = firstn m (skipn k log) -> List.length (r_suffix image r) = m ->
+      exists d', recover image proto_unmarshal auto orc r = Some d' /\ replica_at auto log (k + m) d'.
+    Proof.
+      intros Hs Hsuf Hlen. unfold recover. destruct (r_snap image r) as [[k' img]|].
+      - destruct Hs as (-> & dat & d & R & Hd & ->).
+        unfold Model.restore, Model.persist. rewrite proto_roundtrip. cbn [option_map].
+        eexists. split; [reflexivity|]. rewrite <- Hlen.
+        apply run_from_replica_at; [|rewrite Hlen; auto].
+        eapply ra_restore; eauto. unfold Model.restore, Model.persist. rewrite proto_roundtrip. reflexivity.
+      - subst k. eexists. split; [reflexivity|]. rewrite <- Hlen.
+        apply (run_from_replica_at auto log orc (r_suffix image r) 0); [apply ra_init|rewrite Hlen; auto].
+    Qed.
+
     (* snapshot at k + replay of the suffix = the whole log, with independent clocks *)
     Theorem snapshot_restore_replay auto log k orc orc' dat :
       log_ok bnd log -> stamps_ok dat ->
